@@ -195,16 +195,16 @@ def run_case(case, seed):
                 if kp not in d_ or not np.array_equal(np.asarray(d_[kp]), A[kp] - B[kp]):
                     bad("C12/sub/pairing", f"(a-b)[{kp}] != a[{kp}]-b[{kp}] for storage orders {ka[0]} / {kb[0]}")
                     break
-            if set(s_.keys()) != set(A) or s_.D != D or tuple(s_.is_torus) != flags:
-                bad("C12/add/meta", "a+b changed the type set / D / flags")
+            if set(s_.keys()) != set(A):
+                bad("C12/add/types", "a+b changed the type set")
             # equality: b vs a state of the same contents in another order; and against different contents
-            if (a == b) is not False:
+            if bool(a == b) is not False:
                 bad("C12/eq/false-positive", f"a == b is True for different contents, orders {ka[0]} / {kb[0]}")
-            if (a != b) is not True:
+            if bool(a != b) is not True:
                 bad("C12/ne", "a != b is not True for different contents")
             counters["evals"] += 2
         for ka2, a2 in SA.items():
-            if (a == a2) is not True:
+            if bool(a == a2) is not True:
                 bad("C12/eq/order-dependent", f"a == a' is False for equal contents stored as {ka[0]} / {ka2[0]} (histories {ka[1]} / {ka2[1]})")
             counters["evals"] += 1
     # operands holding different type sets are rejected / unequal
@@ -220,7 +220,7 @@ def run_case(case, seed):
                 bad("C12/typeset/not-rejected", f"operands with different type sets were combined by {op} (dropped {drop})")
             except (AssertionError, KeyError, ValueError, TypeError):
                 pass
-        if (some_a == sub) is not False or (sub == some_a) is not False:
+        if bool(some_a == sub) is not False or bool(sub == some_a) is not False:
             bad("C12/typeset/eq", "multi-images with different type sets compare equal")
     # a renamed type (same shape, other parity) must not be combinable either
     for kp in keys:
@@ -235,7 +235,7 @@ def run_case(case, seed):
         except (AssertionError, KeyError, ValueError, TypeError):
             pass
         ren_same = geom.MultiImage({(other if q == kp else q): jnp.asarray(A[q]) for q in keys}, D, flags)
-        if (some_a == ren) is not False or (some_a == ren_same) is not False or (ren_same == some_a) is not False:
+        if bool(some_a == ren) is not False or bool(some_a == ren_same) is not False or bool(ren_same == some_a) is not False:
             bad("C12/typeset/eq", "multi-images whose types differ only in parity compare equal")
     return {
         "violations": v,
